@@ -53,6 +53,9 @@ class Report:
         if self.form and verdict != PASS:
             msg = "%s [%s]" % (msg, self.form)
         inst = Instance(rule, verdict, where, msg, detail)
+        # every rule application counts for the vacuity guard, also when two of them report the same place (one helper expanded at two call sites)
+        self._applied = getattr(self, "_applied", [])
+        self._applied.append((self.form, rule))
         k = inst.key() + (verdict,)
         if k in self._seen:
             return inst
@@ -88,6 +91,9 @@ class Report:
         # vacuity guards
         for rule, minimum in self.counts_min.items():
             have = self.count(rule)
+            applied = getattr(self, "_applied", [])
+            for form in {f_ for f_, _ in applied}:
+                have = max(have, sum(1 for f_, r_ in applied if f_ == form and (r_ == rule or r_.startswith(rule + "."))))
             if have < minimum:
                 self.unk("VACUITY", {"file": "-", "line": 0, "function": "-", "construct": rule},
                          "rule %s matched %d instances, fewer than the %d confirmed by hand" % (rule, have, minimum))
